@@ -564,6 +564,63 @@ def r20_6(rep, M, rid):
         rep.ok(rid, "get_moments_of_inertia: masses used exactly when `weight` is set")
     else:
         rep.violation(rid, "get_moments_of_inertia weight", "mass weighting does not follow the `weight` flag", M.where(fq))
+    # the matrix handed to eigh is the inertia tensor: entry (r, c) = -sum w x_r x_c off the diagonal, sum w (x_a^2 + x_b^2) with {a, b} = the other two on it
+    defs = {}
+    for s2 in ast.walk(fn):
+        if isinstance(s2, ast.Assign) and len(s2.targets) == 1 and isinstance(s2.targets[0], ast.Name):
+            defs.setdefault(s2.targets[0].id, s2.value)
+    col = {}
+    for nm, v in defs.items():
+        if isinstance(v, ast.Subscript) and isinstance(v.slice, ast.Tuple) and len(v.slice.elts) == 2 and isinstance(v.slice.elts[0], ast.Slice) \
+                and isinstance(v.slice.elts[1], ast.Constant) and isinstance(v.slice.elts[1].value, int):
+            col[nm] = v.slice.elts[1].value
+    mats = [v for v in defs.values() if isinstance(v, ast.Call) and resolver(M, fq)(v.func) in ("numpy.array", "numpy.asarray") and v.args
+            and isinstance(v.args[0], ast.List) and len(v.args[0].elts) == 3 and all(isinstance(r, ast.List) and len(r.elts) == 3 for r in v.args[0].elts)]
+    if not mats or len(col) < 3:
+        raise AnalysisError("get_moments_of_inertia: 3x3 tensor literal / coordinate columns not recognised")
+
+    def columns_of(e):
+        """multiset of coordinate columns multiplied in the summand of entry e, squares counted twice; None if not understood"""
+        if isinstance(e, ast.Name):
+            if e.id in col:
+                return [[col[e.id]]]
+            d0 = defs.get(e.id)
+            if isinstance(d0, (ast.BinOp, ast.UnaryOp)) or (isinstance(d0, ast.Call) and ((resolver(M, fq)(d0.func) or "") == "numpy.sum"
+                                                                                       or (isinstance(d0.func, ast.Attribute) and d0.func.attr == "sum"))):
+                return columns_of(d0)
+            return [[]]          # weights and other factors that are not coordinate columns
+        if isinstance(e, ast.Call) and (resolver(M, fq)(e.func) or "") == "numpy.sum" and e.args:
+            return columns_of(e.args[0])
+        if isinstance(e, ast.Call) and isinstance(e.func, ast.Attribute) and e.func.attr == "sum" and not e.args:
+            return columns_of(e.func.value)
+        if isinstance(e, ast.UnaryOp):
+            return columns_of(e.operand)
+        if isinstance(e, ast.BinOp) and isinstance(e.op, ast.Pow) and isinstance(e.right, ast.Constant) and e.right.value == 2:
+            a = columns_of(e.left)
+            return [t + t for t in a] if a is not None else None
+        if isinstance(e, ast.BinOp) and isinstance(e.op, ast.Mult):
+            a, b = columns_of(e.left), columns_of(e.right)
+            return [x + y for x in a for y in b] if a is not None and b is not None else None
+        if isinstance(e, ast.BinOp) and isinstance(e.op, (ast.Add, ast.Sub)):
+            a, b = columns_of(e.left), columns_of(e.right)
+            return a + b if a is not None and b is not None else None
+        return None
+    rows = mats[0].args[0].elts
+    for r in range(3):
+        for c in range(3):
+            terms = columns_of(rows[r].elts[c])
+            if terms is None:
+                raise AnalysisError(f"get_moments_of_inertia: entry ({r + 1},{c + 1}) `{norm(rows[r].elts[c])}` not understood")
+            got = sorted(sorted(t) for t in terms)
+            others = sorted(set(range(3)) - {r})
+            want = [[r, c]] if r != c else [[others[0]] * 2, [others[1]] * 2]
+            want = sorted(sorted(t) for t in want)
+            if got == want:
+                rep.ok(rid, f"get_moments_of_inertia: tensor entry ({r + 1},{c + 1}) = `{norm(rows[r].elts[c])}` multiplies the coordinates {want}")
+            else:
+                rep.violation(rid, f"get_moments_of_inertia: tensor entry ({r + 1},{c + 1})", f"`{norm(rows[r].elts[c])}` sums products of coordinate columns {got}; the inertia "
+                              f"tensor needs {want} there ({'-sum w x_r x_c' if r != c else 'sum w (x_a^2 + x_b^2)'}): the matrix given to eigh is not the inertia tensor, so "
+                              "eigenvalues and axes are wrong", M.where(fq, rows[r].elts[c]))
 
 
 def run(rep, ctx):
@@ -597,6 +654,10 @@ def run(rep, ctx):
         r20_7(rep, M, "R20.7")
     with rep.guard("R20.4"):
         r20_units(rep, M, "R20.4")
+    rep.rule("R20.8", "no function keeps results in module-level state or functools caches (answers do not depend on what the process analysed before)")
+    with rep.guard("R20.8"):
+        from .. import symrules as _SRms
+        _SRms.module_state(rep, ctx.model, "R20.8")
     rep.floor("R20.7", 3)
     rep.floor("R20.2", 4)
     rep.floor("R20.3", 5)
